@@ -807,5 +807,6 @@ def run(ctx):
     from .c20 import r4_debt_lock as _dl
 
     _dl(_RL9(ctx, 'C09.R6'))
-    _ch(_RL9(ctx, 'C09.R6'))
+    if all(ctx.corpus.method(repo_cls(ctx.corpus), h_) is not None for h_ in ('_store_cached', '_get_cached', '_delete_cached')):
+        _ch(_RL9(ctx, 'C09.R6'))
     r10_credentials_replaced_not_removed(ctx)
